@@ -1,4 +1,1016 @@
-//! pipeline: not built yet.
-pub fn run(args: &vh_common::Args) {
-    vh_common::unknown(args)
+//! OpLog, node level (C04, and C01/C03/C05 seen through the node's pipeline): the real
+//! `p2panda::processor::Pipeline` (Ingest -> LogPrune on its own thread, `TaskTracker`, events built
+//! by `Event::new` exactly as `streams/stream.rs::process_operation` does) over a real `SqliteStore`,
+//! with the node's `Extensions` / `LogId` / `Topic` types, against spec/OpLog.
+//!
+//! * `replay`: TLC-exported behaviours of MC_OpLog with one event in flight; every Submit is one
+//!   `Pipeline::process` call; the returned event (ingest / log_prune status) and the stored set are
+//!   compared with the spec's Ingest and Prune steps, and C01/C03/C04/C05 are evaluated on the
+//!   implementation's own before/after store.
+//! * `record`: seeded random histories through the same pipeline, partly with several callers in
+//!   flight (only events of different logs are overlapped, so that the order of the recorded
+//!   linearisation points is unambiguous); the order of the stages is taken from the cfg-guarded
+//!   `verif::emit` hooks in pipeline.rs; validated by Trace_OpLog.tla.
+//!
+//! The world / forgery-class code is the same as in vh-oplog (other extension type).
+use std::collections::{BTreeMap, BTreeSet, VecDeque};
+use std::time::Duration;
+
+use p2panda::operation::{Extensions, LogId};
+use p2panda::processor::{Event, ProcessorStatus};
+use p2panda::verif_api::{Pipeline, TaskTracker};
+use p2panda_core::{Body, Hash, Header, Operation, Signature, SigningKey, Topic, VerifyingKey};
+use p2panda_store::SqliteStore;
+use p2panda_store::logs::LogStore;
+use p2panda_store::operations::OperationStore;
+use p2panda_stream::ingest::{IngestError, IngestResult};
+use p2panda_stream::log_prune::LogPruneResult;
+use vh_common::{Args, Outcome, Rng, TraceWriter, Value, catch, json, read_ndjson, unknown};
+
+pub type Op = Operation<Extensions>;
+
+
+/// Vacuity guard: `--require a,b` makes a run without a single occurrence of counter a or b a tool error.
+fn require_counters(out: &Outcome, args: &Args) {
+    if let Some(req) = args.extra.get("require") {
+        for c in req.split(',').filter(|c| !c.is_empty()) {
+            if out.counters.get(c).copied().unwrap_or(0) == 0 {
+                eprintln!("vacuous run: counter `{c}` is zero");
+                std::process::exit(2);
+            }
+        }
+    }
+}
+
+pub fn run(args: &Args) {
+    match args.mode.as_str() {
+        "replay" => replay(args),
+        "record" => record(args),
+        _ => unknown(args),
+    }
+}
+
+/// Log name of the spec -> topic (the node derives the log id from the topic).
+fn topic_of(l: &str) -> Topic {
+    Topic::from(Hash::digest(format!("vh-pipeline topic {l}").as_bytes()))
+}
+
+// ------------------------------------------------------------------------------------------
+// The concrete world
+
+/// `[a, l, seq, v]` id record of the spec -> flat key.
+fn idkey(v: &Value) -> String {
+    format!(
+        "{}|{}|{}|{}",
+        v["a"].as_str().unwrap_or("?"),
+        v["l"].as_str().unwrap_or("?"),
+        v["seq"].as_i64().unwrap_or(-9),
+        v["v"].as_str().unwrap_or("?")
+    )
+}
+
+fn mkid(a: &str, l: &str, seq: u32, v: &str) -> Value {
+    json!({"a": a, "l": l, "seq": seq, "v": v})
+}
+
+/// What the harness knows about a concrete operation it built (the *intended* abstract fields).
+#[derive(Clone, Debug)]
+pub struct Info {
+    pub key: String,
+    pub a: String,
+    pub l: String,
+    pub seq: u32,
+    pub prune: bool,
+    pub bl: Option<String>,
+    pub wf: bool,
+}
+
+pub struct World {
+    salt: String,
+    /// honest prune positions
+    pub prune: BTreeSet<(String, String, u32)>,
+    keys: BTreeMap<String, SigningKey>,
+    names: BTreeMap<VerifyingKey, String>,
+    honest: BTreeMap<(String, String, u32), Op>,
+    /// operation hash -> info of the operation with that hash
+    pub by_hash: BTreeMap<Hash, Info>,
+}
+
+impl World {
+    pub fn new(salt: String) -> World {
+        World {
+            salt,
+            prune: BTreeSet::new(),
+            keys: BTreeMap::new(),
+            names: BTreeMap::new(),
+            honest: BTreeMap::new(),
+            by_hash: BTreeMap::new(),
+        }
+    }
+
+    pub fn key(&mut self, name: &str) -> SigningKey {
+        if let Some(k) = self.keys.get(name) {
+            return k.clone();
+        }
+        let seed = Hash::digest(format!("vh-pipeline/{}/{}", self.salt, name).as_bytes());
+        let k = SigningKey::from_bytes(seed.as_bytes());
+        self.keys.insert(name.to_string(), k.clone());
+        self.names.insert(k.verifying_key(), name.to_string());
+        k
+    }
+
+    pub fn vk(&mut self, name: &str) -> VerifyingKey {
+        self.key(name).verifying_key()
+    }
+
+    pub fn author_names(&self) -> Vec<String> {
+        self.keys.keys().cloned().collect()
+    }
+
+    pub fn name_of(&self, vk: &VerifyingKey) -> String {
+        self.names.get(vk).cloned().unwrap_or_else(|| format!("key:{}", vk.to_hex()))
+    }
+
+    fn body_for(a: &str, l: &str, s: u32) -> (Option<Body>, bool) {
+        // (payload the header commits to, is the body attached?)
+        match s % 3 {
+            0 => (Some(Body::new(format!("payload of {a}/{l}/{s}").as_bytes())), true),
+            1 => (None, false),
+            _ => (Some(Body::new(format!("withheld payload of {a}/{l}/{s}").as_bytes())), false),
+        }
+    }
+
+    /// The one honest operation of author `a` in log `l` at `s` (non-equivocating world).
+    pub fn honest(&mut self, a: &str, l: &str, s: u32) -> Op {
+        let k = (a.to_string(), l.to_string(), s);
+        if let Some(op) = self.honest.get(&k) {
+            return op.clone();
+        }
+        let backlink = if s == 0 { None } else { Some(self.honest(a, l, s - 1).hash) };
+        let sk = self.key(a);
+        let (payload, attached) = Self::body_for(a, l, s);
+        let prune = self.prune.contains(&k);
+        let mut header = Header {
+            version: 1,
+            verifying_key: sk.verifying_key(),
+            signature: None,
+            payload_size: payload.as_ref().map(|b| b.size()).unwrap_or(0),
+            payload_hash: payload.as_ref().map(|b| b.hash()),
+            seq_num: s,
+            backlink,
+            extensions: Extensions::from_topic(topic_of(l)).set_prune_flag(prune),
+        };
+        header.sign(&sk);
+        let op = Operation {
+            hash: header.hash(),
+            header,
+            body: if attached { payload } else { None },
+        };
+        self.honest.insert(k, op.clone());
+        self.by_hash.insert(
+            op.hash,
+            Info {
+                key: format!("{a}|{l}|{s}|Honest"),
+                a: a.to_string(),
+                l: l.to_string(),
+                seq: s,
+                prune,
+                bl: if s == 0 { None } else { Some(format!("{a}|{l}|{}|Honest", s - 1)) },
+                wf: true,
+            },
+        );
+        op
+    }
+
+    /// Realises a forgery class of the spec by actual mutation of the honest operation `base`.
+    /// `param` is the class parameter (author name / sequence number), `tweak` varies the concrete
+    /// bytes (which signature bit, ...) without leaving the class.
+    pub fn concretise(&mut self, cls: &str, param: &str, base: &Op, tweak: u64) -> Op {
+        let mut h = base.header.clone();
+        let mut body = base.body.clone();
+        let author = self.name_of(&h.verifying_key);
+        match cls {
+            "Honest" => {}
+            "BadSig" => {
+                let mut sig = h.signature.expect("signed").to_bytes();
+                let bit = (tweak % 512) as usize;
+                sig[bit / 8] ^= 1 << (bit % 8);
+                h.signature = Some(Signature::from_bytes(&sig));
+            }
+            // signed by the claimed author, but malformed
+            "BadVersion" => {
+                h.version = if tweak % 2 == 0 { 2 } else { 0 };
+                h.sign(&self.key(&author));
+            }
+            "PayloadInfoInconsistent" => {
+                if h.payload_hash.is_some() {
+                    h.payload_size = 0;
+                } else {
+                    h.payload_size = 5;
+                }
+                h.sign(&self.key(&author));
+            }
+            "BacklinkSeqInconsistent" => {
+                if h.seq_num > 0 {
+                    h.backlink = None;
+                } else {
+                    h.backlink = Some(Hash::digest(b"a backlink at seq 0"));
+                }
+                h.sign(&self.key(&author));
+            }
+            "BodyMismatch" => {
+                body = Some(Body::new(b"this is not the body the header commits to"));
+            }
+            // header field changed, signature left as it was
+            "ClaimOtherAuthor" => h.verifying_key = self.vk(param),
+            "PruneFlipped" => h.extensions = h.extensions.clone().set_prune_flag(!h.extensions.prune_flag().is_set()),
+            "SeqChanged" => h.seq_num = param.parse().expect("seq param"),
+            "BacklinkChanged" => h.backlink = Some(Hash::digest(b"elsewhere")),
+            "ForgedPrune" => {
+                h.verifying_key = self.vk(param);
+                h.extensions = h.extensions.clone().set_prune_flag(true);
+                let mut rng = Rng::new(tweak ^ 0xF0F0);
+                let mut sig = [0u8; 64];
+                sig.copy_from_slice(&rng.bytes(64));
+                h.signature = Some(Signature::from_bytes(&sig));
+            }
+            // verifying key replaced AND re-signed by the attacker: a valid operation of the attacker
+            "Resigned" => {
+                let sk = self.key(param);
+                h.verifying_key = sk.verifying_key();
+                h.sign(&sk);
+            }
+            other => {
+                eprintln!("unknown forgery class {other}");
+                std::process::exit(2);
+            }
+        }
+        Operation { hash: h.hash(), header: h, body }
+    }
+
+    pub fn register(&mut self, op: &Op, info: Info) {
+        // a copy with a foreign BODY has the header (and hash) of the honest operation: rows with
+        // that hash are rows of the honest operation
+        self.by_hash.entry(op.hash).or_insert(info);
+    }
+}
+
+// ------------------------------------------------------------------------------------------
+// The implementation side: the node's pipeline
+
+#[derive(Clone, Debug, PartialEq, Eq, PartialOrd, Ord)]
+pub struct Row {
+    pub key: String,
+    pub a: String,
+    pub l: String,
+    pub seq: u32,
+    pub prune: bool,
+    pub hash: Hash,
+    pub backlink: Option<Hash>,
+}
+
+#[derive(Clone, Copy, Debug, PartialEq, Eq)]
+pub enum Res {
+    Inserted,
+    AlreadyExists,
+    Rejected,
+}
+
+impl Res {
+    pub fn name(&self) -> &'static str {
+        match self {
+            Res::Inserted => "Inserted",
+            Res::AlreadyExists => "AlreadyExists",
+            Res::Rejected => "Rejected",
+        }
+    }
+}
+
+pub struct Processed {
+    pub res: Res,
+    /// Some(n): LogPrune ran `prune_entries` and deleted n rows; None: Noop
+    pub pruned: Option<u64>,
+    pub completed: bool,
+    pub failed: bool,
+}
+
+pub struct Impl {
+    pub store: SqliteStore,
+    pipeline: Pipeline<LogId, Extensions, Topic>,
+}
+
+type Ev = Event<LogId, Extensions, Topic>;
+
+impl Impl {
+    pub async fn new() -> Impl {
+        let store = SqliteStore::temporary().await;
+        let pipeline = Pipeline::new(store.clone(), TaskTracker::new());
+        Impl { store, pipeline }
+    }
+
+    pub async fn wipe(&self) -> Result<(), String> {
+        self.store
+            .execute(async |pool| {
+                sqlx::query("DELETE FROM operations_v1").execute(pool).await?;
+                sqlx::query("DELETE FROM topics_v1").execute(pool).await?;
+                Ok(())
+            })
+            .await
+            .map_err(|e| e.to_string())
+    }
+
+    /// Exactly what `process_operation` / `process_published_operation` (streams/stream.rs:331,428)
+    /// do with an operation that arrived on `topic`.
+    fn event(op: &Op, l: &str) -> Ev {
+        let topic = topic_of(l);
+        let log_id = LogId::from_topic(topic);
+        let prune_flag = op.header.extensions.prune_flag();
+        Event::verif_new(op.clone(), log_id, topic, prune_flag)
+    }
+
+    fn read(ev: &Ev) -> Result<Processed, String> {
+        let res = match ev.verif_ingest() {
+            ProcessorStatus::Completed(IngestResult::Inserted) => Res::Inserted,
+            ProcessorStatus::Completed(IngestResult::AlreadyExists) => Res::AlreadyExists,
+            ProcessorStatus::Failed(IngestError::InvalidOperation(_)) => Res::Rejected,
+            ProcessorStatus::Failed(IngestError::StoreError(e)) => return Err(format!("ingest store error: {e}")),
+            ProcessorStatus::Pending => return Err("event returned with ingest still pending".into()),
+        };
+        let pruned = match ev.verif_log_prune() {
+            ProcessorStatus::Completed(LogPruneResult::Pruned { num_entries }) => Some(*num_entries),
+            ProcessorStatus::Completed(LogPruneResult::Noop) => None,
+            ProcessorStatus::Failed(e) => return Err(format!("log prune store error: {e}")),
+            ProcessorStatus::Pending => return Err("event returned with log_prune still pending".into()),
+        };
+        Ok(Processed { res, pruned, completed: ev.is_completed(), failed: ev.is_failed() })
+    }
+
+    /// One operation through `Pipeline::process`.
+    pub async fn process(&self, op: &Op, l: &str) -> Result<Processed, String> {
+        let fut = self.pipeline.process(Self::event(op, l));
+        // The pipeline runs on its own thread with its own runtime; if it died the task is never
+        // marked done. 60 s for a sub-millisecond job can only expire on a dead pipeline.
+        match tokio::time::timeout(Duration::from_secs(60), fut).await {
+            Ok(ev) => Self::read(&ev),
+            Err(_) => Err("Pipeline::process did not return (pipeline thread dead?)".into()),
+        }
+    }
+
+    /// Several callers at once (all futures polled on this thread, the pipeline thread interleaves
+    /// its two stages as it likes).
+    pub async fn process_many(&self, ops: &[(Op, String)]) -> Result<Vec<Processed>, String> {
+        let futs: Vec<_> = ops.iter().map(|(op, l)| self.pipeline.process(Self::event(op, l))).collect();
+        match tokio::time::timeout(Duration::from_secs(60), futures_util::future::join_all(futs)).await {
+            Ok(evs) => evs.iter().map(Self::read).collect(),
+            Err(_) => Err("Pipeline::process did not return (pipeline thread dead?)".into()),
+        }
+    }
+
+    pub async fn project(&self, world: &World, authors: &[(String, VerifyingKey)], logs: &[String]) -> Result<BTreeSet<Row>, String> {
+        let mut rows = BTreeSet::new();
+        for (name, vk) in authors {
+            for l in logs {
+                let log_id = LogId::from_topic(topic_of(l));
+                let entries = <SqliteStore as LogStore<Op, VerifyingKey, LogId, u32, Hash>>::get_log_entries(
+                    &self.store, vk, &log_id, None, None,
+                )
+                .await
+                .map_err(|e| e.to_string())?;
+                for (op, _) in entries.unwrap_or_default() {
+                    let key = world
+                        .by_hash
+                        .get(&op.hash)
+                        .map(|i| i.key.clone())
+                        .unwrap_or_else(|| format!("unknown|{}", op.hash.to_hex()));
+                    rows.insert(Row {
+                        key,
+                        a: name.clone(),
+                        l: l.clone(),
+                        seq: op.header.seq_num,
+                        prune: op.header.extensions.prune_flag().is_set(),
+                        hash: op.hash,
+                        backlink: op.header.backlink,
+                    });
+                }
+            }
+        }
+        Ok(rows)
+    }
+
+    pub async fn total_rows(&self) -> Result<i64, String> {
+        self.store
+            .execute(async |pool| {
+                let n: (i64,) = sqlx::query_as("SELECT COUNT(*) FROM operations_v1").fetch_one(pool).await?;
+                Ok(n.0)
+            })
+            .await
+            .map_err(|e| e.to_string())
+    }
+
+    pub async fn has(&self, hash: &Hash) -> Result<bool, String> {
+        <SqliteStore as OperationStore<Op, Hash>>::has_operation(&self.store, hash).await.map_err(|e| e.to_string())
+    }
+}
+
+fn keys_of(rows: &BTreeSet<Row>) -> BTreeSet<String> {
+    rows.iter().map(|r| r.key.clone()).collect()
+}
+
+fn height(rows: &BTreeSet<Row>, a: &str, l: &str) -> i64 {
+    rows.iter().filter(|r| r.a == a && r.l == l).map(|r| r.seq as i64).max().unwrap_or(-1)
+}
+
+fn logs_of(rows: &BTreeSet<Row>) -> BTreeSet<(String, String)> {
+    rows.iter().map(|r| (r.a.clone(), r.l.clone())).collect()
+}
+
+// ------------------------------------------------------------------------------------------
+// The properties, evaluated on the implementation's own observables
+
+/// A finding: (property, signature, detail).
+pub type Finding = (&'static str, String, String);
+
+#[derive(Default)]
+pub struct Judge {
+    /// prune points (author, log, seq) the implementation itself INSERTED (C05)
+    ingested_prunes: BTreeSet<(String, String, u32)>,
+    /// prune points whose LogPrune ran as the effect of an accepted valid operation (C05)
+    applied: BTreeSet<(String, String, u32)>,
+}
+
+impl Judge {
+    /// After `ingest_operation` returned `res` for the operation described by `info`.
+    pub fn after_ingest(&mut self, info: &Info, cls: &str, op: &Op, res: Res, before: &BTreeSet<Row>, after: &BTreeSet<Row>, has_after: bool) -> Vec<Finding> {
+        let mut f: Vec<Finding> = Vec::new();
+        // C01
+        if !info.wf && res != Res::Rejected {
+            f.push(("C01", format!("invalid-operation-accepted:{cls}"), format!("{} ({cls}) must fail validation but ingest returned {}", info.key, res.name())));
+        }
+        if res == Res::Rejected && before != after {
+            f.push(("C01", "rejected-operation-changed-store".into(), format!("{} was rejected but the store changed: {:?} -> {:?}", info.key, keys_of(before), keys_of(after))));
+        }
+        if res == Res::Rejected && has_after && !before.iter().any(|r| r.hash == op.hash) {
+            f.push(("C01", "rejected-operation-is-stored".into(), format!("{} was rejected but has_operation is true", info.key)));
+        }
+        if res != Res::Rejected && !has_after {
+            f.push(("C01", "accepted-operation-not-stored".into(), format!("{} was reported {} but has_operation is false", info.key, res.name())));
+        }
+        // C04: ingest never deletes
+        if before.difference(after).next().is_some() {
+            f.push(("C04", "ingest-deleted-entries".into(), format!("ingest of {} removed {:?}", info.key, before.difference(after).map(|r| r.key.clone()).collect::<Vec<_>>())));
+        }
+        // C03
+        for (a, l) in logs_of(before) {
+            if height(after, &a, &l) < height(before, &a, &l) {
+                f.push(("C03", "height-decreased".into(), format!("height of {a}/{l} went from {} to {}", height(before, &a, &l), height(after, &a, &l))));
+            }
+        }
+        if res == Res::Inserted {
+            let log: Vec<&Row> = before.iter().filter(|r| r.a == info.a && r.l == info.l).collect();
+            let h = log.iter().map(|r| r.seq as i64).max().unwrap_or(-1);
+            let s = op.header.seq_num as i64;
+            let flagged = op.header.extensions.prune_flag().is_set();
+            let non_extending = if log.is_empty() {
+                s > 0 && !flagged
+            } else if !flagged {
+                s != h + 1 || !log.iter().any(|r| r.seq as i64 == h && Some(r.hash) == op.header.backlink)
+            } else {
+                s <= h
+            };
+            if non_extending {
+                f.push(("C03", "non-extending-operation-accepted".into(), format!("{} (seq {s}, prune flag {flagged}) was inserted into a log of height {h}", info.key)));
+            }
+            if after.iter().filter(|r| r.a == info.a && r.l == info.l && r.seq == op.header.seq_num).count() > 1 {
+                f.push(("C03", "duplicate-seq".into(), format!("{}/{} holds two entries with seq {}", info.a, info.l, s)));
+            }
+            // C05
+            if let Some(p) = self.ingested_prunes.iter().find(|p| p.0 == info.a && p.1 == info.l && op.header.seq_num < p.2) {
+                f.push(("C05", "stored-below-prune-point".into(), format!("{} (seq {}) was stored although a prune-flagged operation at seq {} of the same log had been ingested before", info.key, s, p.2)));
+            }
+            if flagged {
+                self.ingested_prunes.insert((info.a.clone(), info.l.clone(), op.header.seq_num));
+            }
+        }
+        f.extend(self.chain_check(after));
+        f
+    }
+
+    /// Every stored entry with seq > 0 and no prune flag backlinks to the stored entry before it.
+    fn chain_check(&self, rows: &BTreeSet<Row>) -> Vec<Finding> {
+        let mut f = Vec::new();
+        for r in rows {
+            if r.seq > 0 && !r.prune {
+                let ok = rows.iter().any(|p| p.a == r.a && p.l == r.l && p.seq + 1 == r.seq && Some(p.hash) == r.backlink);
+                if !ok {
+                    f.push(("C03", "broken-chain".into(), format!("stored entry {} (seq {}, no prune flag) has no stored predecessor it backlinks to", r.key, r.seq)));
+                }
+            }
+        }
+        for p in &self.applied {
+            if let Some(r) = rows.iter().find(|r| r.a == p.0 && r.l == p.1 && r.seq < p.2) {
+                f.push(("C05", "entry-below-applied-prune-point".into(), format!("{} (seq {}) is stored below the applied prune point {}", r.key, r.seq, p.2)));
+            }
+        }
+        f
+    }
+
+    /// After the LogPrune stage ran for the event of `info` whose ingest result was `res`.
+    /// `ran` = the args were PruneEntriesUntil (harness-level knowledge; None if unknown).
+    pub fn after_prune(&mut self, info: &Info, res: Res, before: &BTreeSet<Row>, after: &BTreeSet<Row>) -> Vec<Finding> {
+        let mut f: Vec<Finding> = Vec::new();
+        let deleted: Vec<&Row> = before.difference(after).collect();
+        let justified = info.wf && info.prune && res != Res::Rejected;
+        if !deleted.is_empty() {
+            if !justified {
+                let sig = if res == Res::Rejected { "prune-after-failed-ingest" } else { "prune-without-valid-prune-operation" };
+                f.push(("C04", sig.into(), format!("{} (valid: {}, prune flag: {}, ingest: {}) deleted {:?}", info.key, info.wf, info.prune, res.name(), deleted.iter().map(|r| r.key.clone()).collect::<Vec<_>>())));
+            } else if deleted.iter().any(|r| r.a != info.a || r.l != info.l || r.seq >= info.seq) {
+                f.push(("C04", "prune-outside-own-log-prefix".into(), format!("{} (prune point {}/{}/{}) deleted {:?}", info.key, info.a, info.l, info.seq, deleted.iter().map(|r| r.key.clone()).collect::<Vec<_>>())));
+            }
+        }
+        if justified {
+            if let Some(r) = after.iter().find(|r| r.a == info.a && r.l == info.l && r.seq < info.seq) {
+                f.push(("C04", "prune-incomplete".into(), format!("after the prune point {}/{}/{} was processed {} (seq {}) is still stored", info.a, info.l, info.seq, r.key, r.seq)));
+            }
+            self.applied.insert((info.a.clone(), info.l.clone(), info.seq));
+        }
+        if after.difference(before).next().is_some() {
+            f.push(("C04", "prune-added-entries".into(), "LogPrune added rows".into()));
+        }
+        for (a, l) in logs_of(before) {
+            if height(after, &a, &l) < height(before, &a, &l) {
+                f.push(("C03", "height-decreased".into(), format!("height of {a}/{l} went from {} to {}", height(before, &a, &l), height(after, &a, &l))));
+            }
+        }
+        f.extend(self.chain_check(after));
+        f
+    }
+}
+
+// ------------------------------------------------------------------------------------------
+// replay: spec -> impl
+
+fn expected_store(step: &Value) -> BTreeSet<String> {
+    step["store"].as_array().map(|a| a.iter().map(idkey).collect()).unwrap_or_default()
+}
+
+fn replay(args: &Args) {
+    let behaviours = read_ndjson(args.input.as_ref().expect("--in"));
+    let mut out = Outcome::new(
+        args,
+        "every TLC-exported behaviour of MC_OpLog with one event in flight executed on the node's real Pipeline \
+         (Event::new + Pipeline::process, Ingest and LogPrune stages on the pipeline thread, SqliteStore, node Extensions); \
+         returned ingest / log_prune status and the stored set compared with the spec after every event, C01/C03/C04/C05 \
+         evaluated on the implementation's before/after store; distinct = behaviours containing a rejected, deduplicated or \
+         pruning event, keyed by world + step list",
+    );
+    let rt = tokio::runtime::Builder::new_current_thread().enable_all().build().expect("runtime");
+    let mut imp: Option<Impl> = None;
+    for (bi, b) in behaviours.iter().enumerate() {
+        out.eval();
+        if imp.is_none() {
+            imp = Some(rt.block_on(Impl::new()));
+        }
+        let r = catch(|| {
+            rt.block_on(async {
+                let imp = imp.as_ref().unwrap();
+                imp.wipe().await?;
+                replay_one(imp, b, bi, &mut out).await
+            })
+        });
+        match r {
+            Ok(Ok(())) => {}
+            Ok(Err(e)) => {
+                out.violation("*", "pipeline-error", format!("pipeline / store error: {e}"), b.clone());
+                imp = None;
+            }
+            Err(p) => {
+                out.violation("*", "panic", format!("the code under test panicked: {p}"), b.clone());
+                imp = None;
+            }
+        }
+    }
+    require_counters(&out, args);
+    out.write(args);
+}
+
+fn item_info(item: &Value) -> Info {
+    Info {
+        key: idkey(&item["id"]),
+        a: item["a"].as_str().unwrap().to_string(),
+        l: item["l"].as_str().unwrap().to_string(),
+        seq: item["seq"].as_u64().unwrap() as u32,
+        prune: item["prune"].as_bool().unwrap(),
+        bl: if item["bl"]["seq"].as_i64() == Some(-1) { None } else { Some(idkey(&item["bl"])) },
+        wf: item["wf"].as_bool().unwrap(),
+    }
+}
+
+/// Judges one event that went through both stages: `mid` (the store between the stages) is
+/// reconstructed as before + added rows, i.e. every deletion is attributed to the LogPrune stage.
+#[allow(clippy::too_many_arguments)]
+fn judge_event(judge: &mut Judge, info: &Info, cls: &str, op: &Op, r: &Processed, before: &BTreeSet<Row>, after: &BTreeSet<Row>, has: bool) -> (Vec<Finding>, BTreeSet<Row>) {
+    let mut mid = before.clone();
+    for row in after.difference(before) {
+        mid.insert(row.clone());
+    }
+    let mut f = judge.after_ingest(info, cls, op, r.res, before, &mid, has || mid.iter().any(|x| x.hash == op.hash));
+    f.extend(judge.after_prune(info, r.res, &mid, after));
+    if !info.wf && (r.completed || !r.failed) {
+        f.push(("C01", format!("invalid-operation-completed:{cls}"), format!("{} ({cls}) fails validation but the pipeline returned it as completed", info.key)));
+    }
+    (f, mid)
+}
+
+async fn replay_one(imp: &Impl, b: &Value, bi: usize, out: &mut Outcome) -> Result<(), String> {
+    let mut world = World::new(format!("b{bi}"));
+    for p in b["world"].as_array().cloned().unwrap_or_default() {
+        world.prune.insert((p[0].as_str().expect("a").to_string(), p[1].as_str().expect("l").to_string(), p[2].as_u64().expect("s") as u32));
+    }
+    let steps = b["steps"].as_array().expect("steps");
+    let mut logs: BTreeSet<String> = BTreeSet::new();
+    for st in steps {
+        if st["act"] == "Submit" {
+            world.key(st["item"]["a"].as_str().expect("a"));
+            world.key(st["base"]["a"].as_str().expect("base a"));
+            logs.insert(st["item"]["l"].as_str().expect("l").to_string());
+        }
+    }
+    let logs: Vec<String> = logs.into_iter().collect();
+    let authors: Vec<(String, VerifyingKey)> = world.author_names().into_iter().map(|n| { let vk = world.vk(&n); (n, vk) }).collect();
+    if steps.len() % 3 != 0 {
+        eprintln!("vh-pipeline replays behaviours with ONE event in flight (Submit, Ingest, Prune triples)");
+        std::process::exit(2);
+    }
+    let mut judge = Judge::default();
+    let mut cur = imp.project(&world, &authors, &logs).await?;
+    let mut nontrivial = false;
+    for (ti, triple) in steps.chunks(3).enumerate() {
+        let (sub, ing, pru) = (&triple[0], &triple[1], &triple[2]);
+        if sub["act"] != "Submit" || ing["act"] != "Ingest" || pru["act"] != "Prune" {
+            eprintln!("vh-pipeline replays behaviours with ONE event in flight (Submit, Ingest, Prune triples)");
+            std::process::exit(2);
+        }
+        let si = ti * 3;
+        let item = &sub["item"];
+        let cls = sub["cls"].as_str().expect("cls").to_string();
+        let base = &sub["base"];
+        let base_op = world.honest(base["a"].as_str().unwrap(), base["l"].as_str().unwrap(), base["seq"].as_u64().unwrap() as u32);
+        let tag = item["id"]["v"].as_str().unwrap_or("");
+        let param = tag.split_once(':').map(|x| x.1).unwrap_or("");
+        let op = world.concretise(&cls, param, &base_op, (bi * 31 + si) as u64);
+        let info = item_info(item);
+        let a_name = world.name_of(&op.header.verifying_key);
+        if a_name != info.a || op.header.seq_num != info.seq || op.header.extensions.prune_flag().is_set() != info.prune {
+            eprintln!("harness bug: concretisation of {cls} does not match the item: {item}");
+            std::process::exit(2);
+        }
+        if cls != "Honest" {
+            world.register(&op, info.clone());
+        }
+        out.count(&format!("class:{cls}"));
+        let r = imp.process(&op, &info.l).await?;
+        let after = imp.project(&world, &authors, &logs).await?;
+        let has = imp.has(&op.hash).await?;
+        out.count(&format!("ingest:{}", r.res.name()));
+        let (mut findings, mid) = judge_event(&mut judge, &info, &cls, &op, &r, &cur, &after, has);
+        let want = ing["res"].as_str().expect("res");
+        if want != r.res.name() {
+            findings.push(("*", "ingest-result-differs-from-spec".into(), format!("ingest of {} returned {}, the specification says {}", info.key, r.res.name(), want)));
+        }
+        if keys_of(&mid) != expected_store(ing) && keys_of(&after) == expected_store(pru) {
+            // only reachable if a row was added and removed again inside one event
+            findings.push(("*", "store-differs-from-spec".into(), format!("after ingest of {}: stored {:?}, the specification says {:?}", info.key, keys_of(&mid), expected_store(ing))));
+        }
+        let want_pruned = pru["pruned"].as_u64().expect("pruned");
+        if r.pruned.unwrap_or(0) != want_pruned {
+            findings.push(("*", "prune-result-differs-from-spec".into(), format!("LogPrune for {} reported {:?} deleted rows, the specification says {}", info.key, r.pruned, want_pruned)));
+        }
+        if keys_of(&after) != expected_store(pru) {
+            findings.push(("*", "store-differs-from-spec".into(), format!("after {}: stored {:?}, the specification says {:?}", info.key, keys_of(&after), expected_store(pru))));
+        }
+        if after.len() as i64 != imp.total_rows().await? {
+            findings.push(("C01", "stray-rows".into(), "operations_v1 holds rows that are not reachable through the logs of the known authors".into()));
+        }
+        if r.res != Res::Inserted || r.pruned.unwrap_or(0) > 0 {
+            nontrivial = true;
+        }
+        if r.pruned.unwrap_or(0) > 0 {
+            out.count("prune:deleted");
+        }
+        let bad = !findings.is_empty();
+        for (prop, sig, detail) in findings {
+            out.violation(prop, &sig, format!("event {ti} (step {si}): {detail}"), b.clone());
+        }
+        cur = after;
+        if bad {
+            return Ok(());
+        }
+    }
+    if nontrivial {
+        out.mark_distinct(format!("{}|{}", b["world"], steps.iter().map(|s| format!("{}{}", s["act"].as_str().unwrap_or(""), s["item"]["id"])).collect::<Vec<_>>().join(",")));
+    }
+    out.sample(json!({"kind": "oplog", "world": b["world"], "steps": steps.len(), "first": steps.first()}));
+    Ok(())
+}
+
+// ------------------------------------------------------------------------------------------
+// record: impl -> spec
+
+fn info_json(i: &Info) -> Value {
+    let id: Vec<&str> = i.key.split('|').collect();
+    let bl = match &i.bl {
+        Some(k) => {
+            let p: Vec<&str> = k.split('|').collect();
+            json!({"a": p[0], "l": p[1], "seq": p[2].parse::<i64>().unwrap_or(-1), "v": p[3]})
+        }
+        None => json!({"a": "", "l": "", "seq": -1, "v": ""}),
+    };
+    json!({
+        "id": {"a": id[0], "l": id[1], "seq": id[2].parse::<i64>().unwrap_or(-1), "v": id[3]},
+        "a": i.a, "l": i.l, "seq": i.seq, "prune": i.prune, "bl": bl, "wf": i.wf,
+    })
+}
+
+fn log_scalars(rows: &BTreeSet<Row>, a: &str, l: &str) -> Value {
+    let seqs: Vec<u32> = rows.iter().filter(|r| r.a == a && r.l == l).map(|r| r.seq).collect();
+    json!({
+        "count": seqs.len(),
+        "height": seqs.iter().max().map(|s| *s as i64).unwrap_or(-1),
+        "low": seqs.iter().min().map(|s| *s as i64).unwrap_or(-1),
+        "total": rows.len(),
+    })
+}
+
+fn unobserved() -> Value {
+    json!({"count": -1, "height": -1, "low": -1, "total": -1})
+}
+
+const FORGE_CLASSES: &[&str] = &[
+    "BadSig", "BadVersion", "PayloadInfoInconsistent", "BacklinkSeqInconsistent", "BodyMismatch",
+    "ClaimOtherAuthor", "PruneFlipped", "SeqChanged", "BacklinkChanged", "ForgedPrune", "Resigned",
+];
+
+fn record(args: &Args) {
+    let mut rng = Rng::new(args.seed);
+    let n = if args.n > 0 { args.n } else { 30 };
+    let mut trace = TraceWriter::create(args.out.as_ref().expect("--out"));
+    let mut out = Outcome::new(
+        args,
+        "seeded random histories (2-4 honest authors, 1-2 attacker keys, 1-2 topics, chains up to 12 with several prune points; \
+         shuffled delivery, duplicates, drops, forged copies of every class incl. forged prune-flagged headers naming a victim, \
+         late old prune-flagged operations; up to 3 callers in flight for events of different logs) through the node's real \
+         Pipeline; stage order from the verif::emit hooks; one event per spec action",
+    );
+    let rt = tokio::runtime::Builder::new_current_thread().enable_all().build().expect("runtime");
+    let mut imp: Option<Impl> = None;
+    for run in 0..n {
+        out.eval();
+        let seed = rng.next_u64();
+        if imp.is_none() {
+            imp = Some(rt.block_on(Impl::new()));
+        }
+        let r = catch(|| {
+            rt.block_on(async {
+                let imp = imp.as_ref().unwrap();
+                imp.wipe().await?;
+                record_one(imp, run, seed, &mut trace, &mut out).await
+            })
+        });
+        match r {
+            Ok(Ok(())) => {}
+            Ok(Err(e)) => {
+                out.violation("*", "pipeline-error", format!("pipeline / store error: {e}"), json!({"run": run, "seed": seed.to_string()}));
+                imp = None;
+            }
+            Err(p) => {
+                out.violation("*", "panic", format!("the code under test panicked: {p}"), json!({"run": run, "seed": seed.to_string()}));
+                imp = None;
+            }
+        }
+    }
+    let (events, runs) = trace.finish();
+    out.set_trace(events, runs);
+    require_counters(&out, args);
+    out.write(args);
+}
+
+struct Planned {
+    op: Op,
+    info: Info,
+    cls: String,
+}
+
+async fn record_one(imp: &Impl, run: usize, seed: u64, trace: &mut TraceWriter, out: &mut Outcome) -> Result<(), String> {
+    let mut rng = Rng::new(seed);
+    let mut world = World::new(format!("r{run}/{seed}"));
+    let n_auth = rng.range(2, 4);
+    let n_mal = rng.range(1, 2);
+    let n_logs = rng.range(1, 2);
+    let honest: Vec<String> = (1..=n_auth).map(|i| format!("a{i}")).collect();
+    let mallory: Vec<String> = (1..=n_mal).map(|i| format!("mx{i}")).collect();
+    let logs: Vec<String> = (1..=n_logs).map(|i| format!("l{i}")).collect();
+    let mut chain_len: BTreeMap<(String, String), u32> = BTreeMap::new();
+    for a in &honest {
+        for l in &logs {
+            let len = rng.range(1, 12) as u32;
+            chain_len.insert((a.clone(), l.clone()), len);
+            for s in 0..len {
+                if rng.chance(1, 4) {
+                    world.prune.insert((a.clone(), l.clone(), s));
+                }
+            }
+        }
+    }
+    for n in honest.iter().chain(mallory.iter()) {
+        world.key(n);
+    }
+    let authors: Vec<(String, VerifyingKey)> = world.author_names().into_iter().map(|n| { let vk = world.vk(&n); (n, vk) }).collect();
+
+    let mut plan: Vec<(String, String, u32)> = Vec::new();
+    for ((a, l), len) in &chain_len {
+        for s in 0..*len {
+            if rng.chance(1, 10) {
+                continue;
+            }
+            plan.push((a.clone(), l.clone(), s));
+            if rng.chance(1, 8) {
+                plan.push((a.clone(), l.clone(), s));
+            }
+        }
+    }
+    let mut keyed: Vec<(i64, (String, String, u32))> = plan
+        .into_iter()
+        .map(|p| {
+            let jitter = match rng.below(10) {
+                0 => rng.below(40) as i64 - 20,
+                1..=3 => rng.below(7) as i64 - 3,
+                _ => 0,
+            };
+            (p.2 as i64 * 2 + jitter, p)
+        })
+        .collect();
+    keyed.sort_by_key(|k| k.0);
+    let mut plan: Vec<(String, String, u32)> = keyed.into_iter().map(|k| k.1).collect();
+    let flagged: Vec<(String, String, u32)> = world.prune.iter().cloned().collect();
+    for p in &flagged {
+        if rng.chance(1, 2) {
+            plan.push(p.clone());
+        }
+    }
+    for _ in 0..rng.below(4) {
+        let ((a, l), len) = chain_len.iter().nth(rng.below(chain_len.len() as u64) as usize).unwrap();
+        plan.push((a.clone(), l.clone(), rng.below(*len as u64) as u32));
+    }
+
+    // concretise the plan: the honest operation or a forged copy
+    let mut forged_n = 0usize;
+    let mut items: VecDeque<Planned> = VecDeque::new();
+    for (a, l, s) in plan {
+        let base = world.honest(&a, &l, s);
+        let base_info = world.by_hash.get(&base.hash).cloned().unwrap();
+        if rng.chance(1, 4) {
+            let cls = *rng.pick(FORGE_CLASSES);
+            let mut info = base_info.clone();
+            let mut param = String::new();
+            match cls {
+                "ClaimOtherAuthor" | "ForgedPrune" => {
+                    let mut others: Vec<&String> = honest.iter().chain(mallory.iter()).filter(|x| **x != a).collect();
+                    others.sort();
+                    param = (*rng.pick(&others)).clone();
+                    info.a = param.clone();
+                    if cls == "ForgedPrune" {
+                        info.prune = true;
+                    }
+                }
+                "Resigned" => {
+                    param = rng.pick(&mallory).clone();
+                    info.a = param.clone();
+                }
+                "SeqChanged" => {
+                    let len = chain_len[&(a.clone(), l.clone())] + 3;
+                    let mut ns = rng.below(len as u64) as u32;
+                    if ns == s {
+                        ns += 1;
+                    }
+                    param = ns.to_string();
+                    info.seq = ns;
+                }
+                "PruneFlipped" => info.prune = !info.prune,
+                "BacklinkChanged" => info.bl = Some(format!("{a}|{l}|{s}|Elsewhere")),
+                _ => {}
+            }
+            info.wf = cls == "Resigned";
+            forged_n += 1;
+            info.key = format!("{a}|{l}|{s}|{cls}:{forged_n}");
+            let op = world.concretise(cls, &param, &base, rng.next_u64());
+            world.register(&op, info.clone());
+            items.push_back(Planned { op, info, cls: cls.to_string() });
+        } else {
+            items.push_back(Planned { op: base, info: base_info, cls: "Honest".to_string() });
+        }
+    }
+
+    trace.event(json!({"ev": "Reset", "run": run, "seed": seed.to_string()}));
+    let mut judge = Judge::default();
+    let mut cur = imp.project(&world, &authors, &logs).await?;
+    let case = json!({"run": run, "seed": seed.to_string()});
+
+    while !items.is_empty() {
+        // a batch of callers in flight: only events that touch pairwise different (claimed author, log)
+        let mut batch: Vec<Planned> = vec![items.pop_front().unwrap()];
+        if rng.chance(1, 2) {
+            while batch.len() < 3 {
+                let Some(next) = items.front() else { break };
+                let clash = batch.iter().any(|p| (p.info.a == next.info.a && p.info.l == next.info.l) || p.op.hash == next.op.hash);
+                if clash {
+                    break;
+                }
+                batch.push(items.pop_front().unwrap());
+            }
+        }
+        p2panda_core::verif::drain();
+        let calls: Vec<(Op, String)> = batch.iter().map(|p| (p.op.clone(), p.info.l.clone())).collect();
+        let results = imp.process_many(&calls).await?;
+        let emits = p2panda_core::verif::drain();
+        let after = imp.project(&world, &authors, &logs).await?;
+        if batch.len() > 1 {
+            out.count("batches_in_flight");
+        }
+        // order of the stages as the pipeline thread executed them
+        let mut order: Vec<(bool, usize)> = Vec::new(); // (is_ingest, index in batch)
+        for (_, line) in &emits {
+            let mut parts = line.splitn(3, ' ');
+            let kind = parts.next().unwrap_or("");
+            let hash = parts.next().unwrap_or("");
+            let Some(ix) = batch.iter().position(|p| p.op.hash.to_hex() == hash) else { continue };
+            match kind {
+                "pipeline.ingest" => order.push((true, ix)),
+                "pipeline.log_prune" => order.push((false, ix)),
+                _ => {}
+            }
+        }
+        if order.len() != batch.len() * 2 {
+            return Err(format!("expected {} stage events from the pipeline hooks, saw {}: {:?}", batch.len() * 2, order.len(), emits));
+        }
+        for (is_ingest, ix) in order.iter().filter(|o| o.0) {
+            let _ = is_ingest;
+            let p = &batch[*ix];
+            out.count(&format!("class:{}", p.cls));
+            trace.event(json!({"ev": "Submit", "cls": p.cls, "item": info_json(&p.info)}));
+        }
+        let single = batch.len() == 1;
+        for (is_ingest, ix) in &order {
+            let (p, r) = (&batch[*ix], &results[*ix]);
+            if *is_ingest {
+                out.count(&format!("ingest:{}", r.res.name()));
+                trace.event(json!({"ev": "Ingest", "res": r.res.name(), "a": p.info.a, "l": p.info.l, "log": unobserved()}));
+            } else {
+                let log = if single { log_scalars(&after, &p.info.a, &p.info.l) } else { unobserved() };
+                trace.event(json!({"ev": "Prune", "active": r.pruned.is_some(), "a": p.info.a, "l": p.info.l, "until": p.info.seq,
+                                   "pruned": r.pruned.unwrap_or(0), "log": log}));
+            }
+        }
+        // judge: events of one batch touch different logs, so each is judged on its own log's rows
+        for (p, r) in batch.iter().zip(results.iter()) {
+            let sel = |rows: &BTreeSet<Row>| -> BTreeSet<Row> {
+                if single { rows.clone() } else { rows.iter().filter(|x| x.a == p.info.a && x.l == p.info.l).cloned().collect() }
+            };
+            let has = imp.has(&p.op.hash).await?;
+            let (findings, _) = judge_event(&mut judge, &p.info, &p.cls, &p.op, r, &sel(&cur), &sel(&after), has);
+            for (prop, sig, detail) in findings {
+                out.violation(prop, &sig, detail, case.clone());
+            }
+            if r.res != Res::Inserted {
+                out.mark_distinct(format!("{run}:{}:{}", p.info.key, r.res.name()));
+            }
+            if r.pruned.unwrap_or(0) > 0 {
+                out.count("prune:deleted");
+                out.mark_distinct(format!("{run}:{}:pruned", p.info.key));
+            }
+        }
+        if !single {
+            // rows outside the logs the batch touched must not move at all (C04: scoped to the own log)
+            let touched: BTreeSet<(String, String)> = batch.iter().map(|p| (p.info.a.clone(), p.info.l.clone())).collect();
+            let outside = |rows: &BTreeSet<Row>| -> BTreeSet<Row> { rows.iter().filter(|x| !touched.contains(&(x.a.clone(), x.l.clone()))).cloned().collect() };
+            if outside(&cur) != outside(&after) {
+                out.violation("C04", "rows-of-untouched-log-changed", format!("a batch touching {touched:?} changed rows of other logs"), case.clone());
+            }
+            let ids: Vec<Value> = after.iter().map(row_id).collect();
+            trace.event(json!({"ev": "Snapshot", "store": ids}));
+        }
+        if after.len() as i64 != imp.total_rows().await? {
+            out.violation("C01", "stray-rows", "operations_v1 holds rows that are not reachable through the known logs".into(), case.clone());
+        }
+        cur = after;
+    }
+    let ids: Vec<Value> = cur.iter().map(row_id).collect();
+    trace.event(json!({"ev": "Snapshot", "store": ids}));
+    out.sample(json!({"run": run, "seed": seed.to_string(), "stored": cur.len()}));
+    Ok(())
+}
+
+fn row_id(r: &Row) -> Value {
+    let p: Vec<&str> = r.key.split('|').collect();
+    if p.len() == 4 { mkid(p[0], p[1], p[2].parse().unwrap_or(0), p[3]) } else { json!({"a": "?", "l": "?", "seq": -2, "v": r.key}) }
 }
